@@ -686,6 +686,24 @@ func (ex *Exec) doCall(fr *frame, st *State, cc *ssa.CallCommon, fnv Val, args [
 				}
 			}
 		}
+		if callee == nil && cc.Value != nil {
+			// a contract written for every function value of this function type ("interface functype:<sig> (params)")
+			if sig, ok := cc.Value.Type().Underlying().(*types.Signature); ok {
+				if c, ok := ex.P.CS.Ifaces["functype:"+sigKey(sig)]; ok {
+					names := append([]string(nil), c.Params...)
+					var ptypes []types.Type
+					for i := 0; i < sig.Params().Len(); i++ {
+						ptypes = append(ptypes, sig.Params().At(i).Type())
+						if i >= len(names) {
+							names = append(names, sig.Params().At(i).Name())
+						}
+					}
+					ex.assumptions["function values of type "+sigKey(sig)+" obey the contract written for that type"] = true
+					ex.setResult(st, instr, ex.contractCall(fr, st, c, "functype:"+sigKey(sig), sig, names, ptypes, args, pos))
+					return
+				}
+			}
+		}
 		if callee == nil && cc.Value != nil && cc.Value.Type().String() == "context.CancelFunc" {
 			// cancelling a context has no effect on the modelled state
 			ex.assumptions["context cancel functions have no modelled effect"] = true
@@ -1706,4 +1724,20 @@ func (ex *Exec) siteAsserts(fr *frame, st *State, cc *ssa.CallCommon, instr ssa.
 			}
 		}
 	}
+}
+
+// sigKey: a function type written without parameter names, e.g. func(*pkg.T,pkg.U)error
+func sigKey(sig *types.Signature) string {
+	var ps, rs []string
+	for i := 0; i < sig.Params().Len(); i++ {
+		ps = append(ps, sig.Params().At(i).Type().String())
+	}
+	for i := 0; i < sig.Results().Len(); i++ {
+		rs = append(rs, sig.Results().At(i).Type().String())
+	}
+	r := strings.Join(rs, ",")
+	if len(rs) > 1 {
+		r = "(" + r + ")"
+	}
+	return "func(" + strings.Join(ps, ",") + ")" + r
 }
